@@ -460,6 +460,52 @@ func stressBreaker(seed int64, scale int) int {
 		if halfOpened.Load() < 1 {
 			v.add("no half-open transition after the delay elapsed")
 		}
+		// "however the execution ends": half-open trials that are cut short by their caller (context cancel, async Cancel), by an
+		// enclosing Timeout, or that panic-free fail / succeed, all give their permit back. Capacity 5 with 3 successes needed:
+		// one or two failed trials do not decide the state, so the breaker stays half-open and all five permits must be free again.
+		{
+			var clk atomic.Int64
+			clk.Store(1000)
+			b2 := circuitbreaker.Builder[int]().WithFailureThreshold(1).WithSuccessThresholdRatio(3, 5).WithDelay(time.Duration(50))
+			circuitbreaker.VerifSetClock(b2, func() int64 { return clk.Load() })
+			cb2 := b2.Build()
+			cb2.RecordFailure()
+			clk.Add(60)
+			how := rng.Intn(4)
+			stubborn := func(e failsafe.Execution[int]) (int, error) { <-e.Canceled(); return 0, errX }
+			var err error
+			switch how {
+			case 0: // the caller's context is cancelled while the trial runs
+				ctx, cancel := context.WithCancel(context.Background())
+				go func() { time.Sleep(100 * time.Microsecond); cancel() }()
+				_, err = failsafe.NewExecutor[int](cb2).WithContext(ctx).GetWithExecution(stubborn)
+				cancel()
+			case 1: // the async result is cancelled
+				r := failsafe.NewExecutor[int](cb2).GetWithExecutionAsync(stubborn)
+				time.Sleep(100 * time.Microsecond)
+				r.Cancel()
+				_, err = r.Get()
+			case 2: // an enclosing Timeout fires
+				_, err = failsafe.NewExecutor[int](timeout.With[int](150*time.Microsecond), cb2).GetWithExecution(stubborn)
+			case 3: // the context deadline passes
+				ctx, cancel := context.WithTimeout(context.Background(), 150*time.Microsecond)
+				_, err = failsafe.NewExecutor[int](cb2).WithContext(ctx).GetWithExecution(stubborn)
+				cancel()
+			}
+			_ = err
+			v.count(fmt.Sprintf("cut-short-trial/%d", how))
+			if cb2.IsHalfOpen() {
+				free := 0
+				for cb2.TryAcquirePermit() && free < 10 {
+					free++
+				}
+				if free != 5 {
+					v.add(fmt.Sprintf("a half-open trial cut short (kind %d) did not give its permit back: %d of 5 permits available", how, free))
+				}
+			} else {
+				v.add(fmt.Sprintf("one failed trial of five decided the half-open state (kind %d): %s", how, cb2.State()))
+			}
+		}
 	}
 	return v.report("breaker", rounds)
 }
